@@ -124,7 +124,7 @@ def router_case(job):
         clear = {"none": None, "approve": pt.Seq(pt.Log(pt.Bytes("clear")), pt.Approve()),
                  "logreject": pt.Reject()}[clear_kind]
         router = pt.Router("r", pt.BareCallActions(**kwargs), clear_state=clear) if clear is not None else pt.Router("r", pt.BareCallActions(**kwargs))
-        methods = []
+        methods, unregistered = [], []
         for mi in range(r.randrange(0, 4) if not directed or directed.startswith("bare") else r.randrange(1, 4)):
             cfg = {name: r.choice([0, 0, 1, 2, 3]) for name in OCS}
             if all(v == 0 for v in cfg.values()):
@@ -139,8 +139,17 @@ def router_case(job):
             name = f"m{mi}"
             ns = {"pt": pt, "abi": abi}
             exec(compile(f"def {name}():\n    return pt.Log(pt.Bytes('method:{name}'))\n", "<m>", "exec", dont_inherit=True), ns)
-            route = r.choice(["handler", "decorator"])
-            if mi == 0 and directed == "default":
+            route = r.choice(["handler", "decorator", "override", "decorator-name"])
+            pyname = name
+            if route in ("override", "decorator-name") and not (mi == 0 and directed == "default"):
+                # registered under another name than the Python function's: the program must dispatch on the registered name
+                name = f"x{mi}"
+                cfgs = {k: pt.CallConfig(v) for k, v in cfg.items()}
+                if route == "override":
+                    router.add_method_handler(pt.ABIReturnSubroutine(ns[pyname]), overriding_name=name, method_config=pt.MethodConfig(**cfgs))
+                else:
+                    router.method(ns[pyname], name=name, **{k: v for k, v in cfgs.items() if cfg[k]})
+            elif mi == 0 and directed == "default":
                 router.method(ns[name]) if r.random() < 0.5 else router.add_method_handler(pt.ABIReturnSubroutine(ns[name]))
             elif route == "handler":
                 router.add_method_handler(pt.ABIReturnSubroutine(ns[name]), method_config=pt.MethodConfig(**{k: pt.CallConfig(v) for k, v in cfg.items()}))
@@ -149,7 +158,9 @@ def router_case(job):
                 given = {k: pt.CallConfig(v) for k, v in cfg.items() if v}
                 router.method(ns[name], **given)
             sel = hashlib.new("sha512_256", f"{name}()void".encode()).digest()[:4]
-            methods.append((name, sel, cfg))
+            methods.append((name, sel, cfg, pyname))
+            if pyname != name:
+                unregistered.append(hashlib.new("sha512_256", f"{pyname}()void".encode()).digest()[:4])
         approval, clear_teal, contract = router.compile_program(version=version)
         listed = sorted(m.name for m in contract.methods)
         if listed != sorted(m[0] for m in methods):
@@ -159,7 +170,7 @@ def router_case(job):
             if exp and m.get_selector() != exp[0][1]:
                 out["problems"].append(f"selector of {m.name} in contract differs from sha512/256 prefix")
         # all calls
-        calls = [("bare", None)] + [("method", m) for m in methods] + [("unknown", b"\xde\xad\xbe\xef"), ("short", b"\x01")]
+        calls = [("bare", None)] + [("method", m) for m in methods] + [("unknown", b"\xde\xad\xbe\xef"), ("short", b"\x01")] + [("unknown", u) for u in unregistered]
         for kind, m in calls:
             for oc in (0, 1, 2, 4, 5):  # ClearState never reaches the approval program
                 for appid in (0, 7):
@@ -177,7 +188,7 @@ def router_case(job):
                         name = {0: "no_op", 1: "opt_in", 2: "close_out", 4: "update_application", 5: "delete_application"}.get(oc)
                         c = m[2].get(name, 0) if name else 0
                         ok = c == 3 or (c == 1 and not create) or (c == 2 and create)
-                        want = ("approve", [f"method:{m[0]}".encode()]) if ok else None
+                        want = ("approve", [f"method:{m[3]}".encode()]) if ok else None
                     else:
                         want = None
                     got = (res.verdict, res.logs) if res.verdict == "approve" else None
